@@ -1,6 +1,7 @@
 """Catalogue of the repo's proposal families, built from the package's own
 exports, with constructors for random but valid instances."""
 import math
+import random
 
 import numpy
 
@@ -95,16 +96,59 @@ def start_value(kind, dom, rng, which=0):
     raise ValueError(kind)
 
 
+def optional_kwargs(family, params, seed):
+    """Non-default values for the OPTIONAL constructor arguments of a family (what ordinary use and
+    the repository's tests leave at their defaults): target rates, decay, user-supplied initial widths
+    that are not proportional to the prior widths, maximum covariances, shuffle rates.  Deterministic
+    in `seed` (own stream: the caller's generator is not advanced)."""
+    r = random.Random(seed)
+    n = len(params)
+    f = family
+    kw = {}
+    if f in ('adaptive_normal', 'adaptive_bounded_normal', 'adaptive_angular', 'adaptive_discrete',
+             'adaptive_bounded_discrete'):
+        if r.random() < 0.7:
+            scale = 4.0 if 'discrete' in f else 1.0
+            kw['initial_std'] = numpy.array([round(scale * r.uniform(0.05, 0.9), 3) for _ in range(n)])
+        if r.random() < 0.5:
+            kw['target_rate'] = r.choice([0.1, 0.3, 0.45])
+        if r.random() < 0.4:
+            kw['adaptation_decay'] = r.choice([0.3, 0.6, 1.5])
+    elif f.startswith('ss_adaptive'):
+        if r.random() < 0.6:
+            kw['target_rate'] = r.choice([0.1, 0.3, 0.45])
+        if r.random() < 0.4:
+            kw['max_cov'] = r.choice([0.8, 2.5, 40.0])
+    elif f.startswith('at_adaptive'):
+        if r.random() < 0.7:
+            kw['target_rate'] = r.choice([0.1, 0.3, 0.45])
+    elif f in ('eigenvector', 'bounded_eigenvector'):
+        kw['shuffle_rate'] = r.choice([0.1, 0.5, 0.9])
+    elif f in ('adaptive_eigenvector', 'adaptive_bounded_eigenvector'):
+        if r.random() < 0.6:
+            kw['target_rate'] = r.choice([0.1, 0.3, 0.45])
+        if r.random() < 0.6:
+            kw['shuffle_rate'] = r.choice([0.1, 0.5, 0.9])
+    elif f == 'adaptive_isotropic_solid_angle':
+        if r.random() < 0.7:
+            kw['target_rate'] = r.choice([0.1, 0.3, 0.45])
+    return kw
+
+
 def make(family, params, doms, rng, jump_interval=1, window=None, start_step=1, successive=None,
-         componentwise=False):
+         componentwise=False, optional=None):
     """Construct a real proposal instance of `family` over `params`.
 
     doms: dict param -> (lo, hi) (for bounded kinds).  window: adaptation duration.
+    optional: None, or a seed -- then the family's optional constructor arguments get the non-default
+    values `optional_kwargs(family, params, seed)`.
     """
     cls, kind, _, _ = FAMILIES[family]
     n = len(params)
     T = window or rng.randint(4, 12)
     kw = {}
+    if optional is not None:
+        kw.update(optional_kwargs(family, params, optional))
     if jump_interval != 1:
         kw['jump_interval'] = jump_interval
     bnds = {p: doms[p] for p in params} if kind in ('box', 'intbox') else None
